@@ -558,11 +558,20 @@ type cliOutcome struct {
 	ChunksWritten int
 }
 
+const (
+	cliHangLimit = 60 * time.Second
+	cliMaxChunks = 4000
+)
+
 func zlintBinary() string { return filepath.Join(verifRoot(), "bin", "zlint") }
 
 func runZlint(args []string, stdin []byte, chunks []int, useStdin bool, stdinKind string, dir string) cliOutcome {
-	ctx, cancel := context.WithTimeout(context.Background(), 60*time.Second)
+	// bounded liveness: the tool must consume every chunk handed to it within cliHangLimit and must
+	// exit within cliHangLimit once its input is closed; the time the harness itself needs to deliver
+	// a long input in small chunks is not the tool's
+	ctx, cancel := context.WithCancel(context.Background())
 	defer cancel()
+	timedOut := false
 	cmd := exec.CommandContext(ctx, zlintBinary(), args...)
 	cmd.Dir = dir
 	cmd.Env = []string{"PATH=/usr/bin:/bin", "HOME=/nonexistent", "TZ=UTC"}
@@ -610,10 +619,12 @@ func runZlint(args []string, stdin []byte, chunks []int, useStdin bool, stdinKin
 			r.Close() // the child holds its own copy
 		}
 		pos, ci := 0, 0
+		// at most cliMaxChunks hand-overs per input: chunk sizes of a plan are scaled up for very long inputs
+		scale := len(stdin)/cliMaxChunks + 1
 		for pos < len(stdin) && !exited {
 			n := len(stdin) - pos
 			if len(chunks) > 0 {
-				c := chunks[ci%len(chunks)]
+				c := chunks[ci%len(chunks)] * scale
 				ci++
 				if c < n {
 					n = c
@@ -625,6 +636,7 @@ func runZlint(args []string, stdin []byte, chunks []int, useStdin bool, stdinKin
 			pos += n
 			oc.ChunksWritten++
 			// hand over the next chunk only once the child has consumed this one
+			waitFrom := time.Now()
 			for fionread(w.Fd()) > 0 {
 				select {
 				case werr = <-done:
@@ -635,16 +647,28 @@ func runZlint(args []string, stdin []byte, chunks []int, useStdin bool, stdinKin
 				if exited {
 					break
 				}
+				if time.Since(waitFrom) > cliHangLimit {
+					timedOut = true
+					cancel()
+					werr = <-done
+					exited = true
+				}
 			}
 		}
 		w.Close()
 	}
 	if !exited {
-		werr = <-done
+		select {
+		case werr = <-done:
+		case <-time.After(cliHangLimit):
+			timedOut = true
+			cancel()
+			werr = <-done
+		}
 	}
 	oc.Stdout = out.Bytes()
 	oc.Stderr = errb.String()
-	if ctx.Err() == context.DeadlineExceeded {
+	if timedOut {
 		oc.TimedOut = true
 		oc.Exit = -2
 		return oc
